@@ -143,6 +143,8 @@ def build_session(st):
             P.msg_sent_stat[k] = v
         for k, v in st.get('recv', {}).items():
             P.msg_recv_stat[k] = v
+    for _ in range(int(st.get('n_pending', 0))):
+        R.connectTCP('10.0.0.2', 179, p, 30, None)
     for sh, name in TIMERS.items():
         tv = st.get('timers', {}).get(sh, {})
         set_timer(getattr(f, name), tv.get('status', False), tv.get('active', False), tv.get('deadline', R.now + 10))
@@ -154,7 +156,8 @@ def view(p, h, P):
     v = {'st': f.state, 'H': f.hold_time, 'KA': f.keep_alive_time, 'allow_auto': f.allow_automatic_start,
          'crc': f.connect_retry_counter, 'protocol_is_P': f.protocol is P, 'protocol_none': f.protocol is None,
          'timers': {sh: timer_view(getattr(f, n)) for sh, n in TIMERS.items()},
-         'reports': list(h.log), 'connects': len(R.connectors), 'now': R.now, 'writes': [], 'lose_calls': 0}
+         'reports': list(h.log), 'connects': len(R.connectors), 'now': R.now, 'writes': [], 'lose_calls': 0,
+         'n_pending': len([c for c in R.connectors if c.state == 'connecting'])}
     if P is not None:
         tr = P.transport
         v.update({'tr_connected': tr.connected, 'tr_disconnecting': tr.disconnecting, 'P_disconnected': P.disconnected,
@@ -202,9 +205,29 @@ def run_request(req):
         if kind == 'session':
             p, h, P = build_session(req['state'])
             recv = {'fsm': p.fsm, 'peering': p, 'protocol': P}[req['receiver']]
-            args = [unj(a) for a in req.get('args', [])]
+            def robj(a):
+                if isinstance(a, dict) and 'obj' in a:
+                    k = a['obj']
+                    if k == 'P':
+                        return P
+                    if k == 'Reason':
+                        return stubs.Reason('connection failed')
+                    if k == 'Addr':
+                        return stubs.Addr(a.get('host', '10.0.0.2'), a.get('port', 179))
+                    if k == 'Connector':
+                        return stubs.Connector(R, '10.0.0.2', 179, p, 30, None)
+                    return object()
+                return unj(a)
+            args = [robj(a) for a in req.get('args', [])]
             kw = {k: unj(v) for k, v in req.get('kwargs', {}).items()}
             tr = P.transport if P is not None else None
+
+            if req['method'] in ('buildProtocol', 'clientConnectionFailed'):
+                for c in R.connectors:
+                    if c.state == 'connecting':
+                        c.state = 'resolved'
+                        break
+            n_conn0 = len(R.connectors)
 
             def call():
                 return getattr(recv, req['method'])(*args, **kw)
@@ -219,6 +242,7 @@ def run_request(req):
                 out['exc'] = type(e).__name__
                 out['exc_str'] = str(e)[:300]
             out['view'] = view(p, h, P)
+            out['view']['connects'] = len(R.connectors) - n_conn0
         elif kind == 'call':
             fn = resolve(req['function'])
             if req.get('instantiate'):
